@@ -48,8 +48,10 @@ PROFILES = {
         'lowered': 0.5,
         'nops': (3, 10),
     },
-    'C02': {'oracles': ['views', 'counts'], 'weights': W, 'with_b': True, 'big': 0.08, 'lowered': 0.3, 'nops': (3, 14)},
-    'C03': {'oracles': ['raw'], 'weights': W, 'with_b': True, 'big': 0.08, 'lowered': 0.3, 'nops': (3, 14)},
+    # 'stale': in a quarter of the runs two handles are open and maintenance may go through a long-open handle whose
+    # snapshot is stale (loud "database is locked" refusals are fine, silent damage is not - see World.step)
+    'C02': {'oracles': ['views', 'counts'], 'weights': W, 'with_b': True, 'big': 0.08, 'lowered': 0.3, 'nops': (3, 14), 'stale': 0.25},
+    'C03': {'oracles': ['raw'], 'weights': W, 'with_b': True, 'big': 0.08, 'lowered': 0.3, 'nops': (3, 14), 'stale': 0.25},
     'C09': {
         'oracles': ['dedup', 'raw', 'views', 'counts'],
         'light': True,
@@ -91,6 +93,7 @@ PROFILES = {
         'big': 0.05,
         'lowered': 0.3,
         'nops': (4, 14),
+        'stale': 0.25,
     },
     'C12': {'oracles': ['validate'], 'weights': W, 'with_b': True, 'big': 0.08, 'lowered': 0.3, 'nops': (3, 14)},
     'C13': {
@@ -160,6 +163,9 @@ def generate(prop, seed, tier='quick'):
         hi = hi * 3
     nops = rng.randint(lo, hi)
     handles = rng.randint(*prof.get('handles', (1, 1)))
+    stale = rng.random() < prof.get('stale', 0)
+    if stale:
+        handles = 2
     ops = gen.gen_history(
         rng, len(pool), nops, weights=prof['weights'], with_b=prof['with_b'], always=prof.get('always', ())
     )
@@ -175,6 +181,8 @@ def generate(prop, seed, tier='quick'):
         for op in ops:
             if op.get('t', 'c') == 'c':
                 op['h'] = rng.randrange(handles)
+                if stale and op['op'] in ('delete', 'repack', 'repack_pack', 'pack_loose', 'clean', 'import'):
+                    op['h'] = 0  # maintenance goes through the long-open handle
     return {
         'engine': 'A',
         'prop': prop,
@@ -185,6 +193,7 @@ def generate(prop, seed, tier='quick'):
         'knobs': knobs,
         'pool': pool,
         'handles': handles,
+        'stale_maintenance': stale,
         'ops': ops,
     }
 
